@@ -753,6 +753,15 @@ def backend_down_case(k):
             'fail_phase': 'snapshot', 'rendezvous': False, 'mode': 'backend-down'}
 
 
+def many_chunks_case(k):
+    """no fault at all: more chunks than the producer/worker queue holds (10 per connection) at N = 1 and 2, plain and coroutine
+    backends - the chunk producer must never be able to starve the backend calls of the workers that drain its queue"""
+    N = 1 + k % 2
+    return {'mn': 16, 'mx': 16, 'files': [{'size': 16 * (13 * N + 9 + k), 'kind': 'rand'}, {'size': 40, 'kind': 'rand'}], 'content_seed': 700 + k, 'N': N,
+            'flavour': ['plain', 'plain', 'async'][k % 3], 'order_seed': k, 'encrypted': bool(k % 2), 'fail_at': None, 'fail_phase': 'restore',
+            'rendezvous': False, 'mode': 'many-chunks'}
+
+
 def forced_race_case(k):
     """one file of exactly two chunks, concurrency 2, rendezvous on: both loaders finish together"""
     return {'mn': 64, 'mx': 64, 'files': [{'size': 128, 'kind': 'rand'}] * (1 + k % 2), 'content_seed': 1000 + k, 'N': 2,
@@ -898,6 +907,71 @@ def lost_wakeup_probe(ctx, rep: Report):
             rep.violations.append({'what': f'restore under the forced slot hand-back schedule: {out.get("error") or "restored bytes differ"}',
                                    'signature': {'kind': 'spurious_error', 'probe': 'lost_wakeup'}, 'replay': {'probe': 'lost_wakeup'}})
             return
+
+
+def limiter_schedule_probe(ctx, rep: Report):
+    """Several transfer threads share one rate limiter (snapshot / restore with a rate limit, plain backend, N >= 2).  The schedule
+    of interest: a thread is descheduled right at the first clock reading of a pause inside the limiter (the clock of replicat.utils is
+    wrapped so that this reading takes a while for worker threads), long enough for a sleeping thread to wake up and settle its
+    account.  Streams end with the usual empty read, which owes nothing.  No transfer may fail because of what another thread did to
+    the shared pause account, and every byte must come through unchanged."""
+    import replicat.utils as U
+    import time as _time
+    L = 2_000_000
+    piece = 1_100_000                # more than PAUSE_LIMIT worth: every data transfer fills the pause account up to its cap
+    errors, results = [], {}
+    calls = {}
+
+    class SlowClock:
+        def __getattr__(self, name):
+            return getattr(_time, name)
+
+        @staticmethod
+        def perf_counter():
+            me = threading.current_thread()
+            if me is not threading.main_thread():
+                n = calls[me] = calls.get(me, 0) + 1
+                if n % 2 == 1:
+                    _time.sleep(0.4)                  # descheduled right here (odd readings = the start of a pause)
+            return _time.perf_counter()
+    saved = U.time
+    U.time = SlowClock()
+    try:
+        limiter = U.RateLimitedIO(L)
+
+        def transfer(i):
+            try:
+                ok = True
+                _time.sleep(0.65 * i)                  # the second transfer reaches the limiter while the first one sleeps in it
+                for k in range(2):
+                    data = bytes([16 * i + k]) * piece
+                    w = limiter.wrap(io.BytesIO(data))
+                    got = b''
+                    while True:
+                        b = w.read(piece)
+                        if not b:
+                            break
+                        got += b
+                    ok = ok and got == data
+                results[i] = ok
+            except Exception as e:
+                errors.append(f'{type(e).__name__}: {str(e)[:100]}')
+        ts = [threading.Thread(target=transfer, args=(i,), daemon=True) for i in range(2)]
+        for t in ts:
+            t.start()
+        for t in ts:
+            t.join(60)
+    finally:
+        U.time = saved
+    rep.case(('limiter-schedule',), nontrivial=True)
+    rep.count('limiter_schedule_probe')
+    if errors:
+        rep.violations.append({'what': f'two transfers sharing one rate limiter, a thread descheduled at a clock reading inside the limiter: a transfer fails with {errors[0]} '
+                                       '(a spurious error that depends on the thread schedule only)',
+                               'signature': {'kind': 'spurious_error', 'probe': 'limiter_schedule'}, 'replay': {'probe': 'limiter_schedule'}})
+    elif any(t.is_alive() for t in ts) or not all(results.get(i) for i in range(2)):
+        rep.violations.append({'what': 'two transfers sharing one rate limiter under a forced thread schedule: a transfer hangs or delivers other bytes',
+                               'signature': {'kind': 'hang', 'probe': 'limiter_schedule'}, 'replay': {'probe': 'limiter_schedule'}})
 
 
 def queue_race_probe(ctx, rep: Report):
@@ -1061,6 +1135,10 @@ def _run(ctx, n_random, n_forced, n_perm, rep):
         case = backend_down_case(k)
         r = random.Random(k)
         check(case, ctx, rep, lambda r=r: (lambda n: r.randrange(n)), f'down{k}')
+    for k in range(max(3, n_forced // 4)):
+        case = many_chunks_case(k)
+        r = random.Random(k)
+        check(case, ctx, rep, lambda r=r: (lambda n: r.randrange(n)), f'many{k}')
     # exhaustive completion orders for a tiny configuration: 2 files / ~3 chunks, N = 2
     tiny = {'mn': 32, 'mx': 32, 'files': [{'size': 64, 'kind': 'rand'}, {'size': 31, 'kind': 'rand'}], 'content_seed': 7, 'N': 2,
             'flavour': 'async', 'order_seed': 0, 'encrypted': False, 'fail_at': None, 'fail_phase': 'restore', 'rendezvous': False, 'mode': 'exhaustive'}
@@ -1082,6 +1160,7 @@ def _run(ctx, n_random, n_forced, n_perm, rep):
         return
     queue_race_probe(ctx, rep)
     lost_wakeup_probe(ctx, rep)
+    limiter_schedule_probe(ctx, rep)
     validate_slot_traces(rep)
     validate_pipe_traces(rep)
     validate_fin_traces(rep)
@@ -1112,6 +1191,11 @@ def replay(ctx, obj):
         return rc
     rep = Report(rule=RULE)
     case = obj.get('replay') or {}
+    if case.get('probe') == 'limiter_schedule':
+        limiter_schedule_probe(ctx, rep)
+        for v in rep.violations:
+            print('VIOLATION-REPRODUCED', v['what'])
+        return 1 if rep.violations else 0
     if case.get('probe') == 'remote_expiry':
         from harness import remote_hist
         remote_hist.remote_expiry_probe(ctx, rep, 6)
